@@ -237,6 +237,37 @@ VARIANTS = [
     {"name": "P R6 collected orphans frozen into a tuple", "file": OM, "expect": "silent",
      "old": "            child_ids = region_state.collect_orphans(local_id)\n",
      "new": "            child_ids = tuple(region_state.collect_orphans(local_id))\n"},
+    # ---- round 5
+    {"name": "R2 local-id index holds its objects weakly", "file": OM, "expect": "C14.R2",
+     "old": "        self.localid_lookup: Dict[int, Object] = {}\n",
+     "new": "        self.localid_lookup: Dict[int, Object] = weakref.WeakValueDictionary()\n"},
+    {"name": "P R2 index tables created with dict()", "file": OM, "expect": "silent",
+     "old": "        self.localid_lookup: Dict[int, Object] = {}\n",
+     "new": "        self.localid_lookup: Dict[int, Object] = dict()\n"},
+    {"name": "R4 setdefault registration pre-filled with the new future only", "file": OM, "expect": "C14.R4",
+     "old": "        local_futs = self._object_futures.get(fut_key, [])\n        local_futs.append(fut)\n"
+            "        self._object_futures[fut_key] = local_futs\n",
+     "new": "        local_futs = [fut]\n        self._object_futures[fut_key] = local_futs\n"},
+    {"name": "P R4 registration through setdefault", "file": OM, "expect": "silent",
+     "old": "        local_futs = self._object_futures.get(fut_key, [])\n        local_futs.append(fut)\n"
+            "        self._object_futures[fut_key] = local_futs\n",
+     "new": "        local_futs = self._object_futures.setdefault(fut_key, [])\n        local_futs.append(fut)\n"},
+    {"name": "P R4 cancel_futures destructures the key", "file": OM, "expect": "silent",
+     "old": _CANCEL_LOOP,
+     "new": "        for (wanted_id, _kind), futs in self._object_futures.items():\n"
+            "            if wanted_id == local_id:\n"
+            "                for fut in futs:\n"
+            "                    fut.cancel()\n"},
+    {"name": "R4 destructured key filter stops at the first match", "file": OM, "expect": "C14.R4",
+     "old": _CANCEL_LOOP,
+     "new": "        for (wanted_id, _kind), futs in self._object_futures.items():\n"
+            "            if wanted_id == local_id:\n"
+            "                for fut in futs:\n"
+            "                    fut.cancel()\n"
+            "                break\n"},
+    {"name": "X lazy-proxy guard any() narrowed to all() (value level)", "file": "hippolyzer/lib/base/objects.py", "expect": "miss",
+     "old": "if any(isinstance(x, lazy_object_proxy.Proxy) for x in (old_val, val)):",
+     "new": "if all(isinstance(x, lazy_object_proxy.Proxy) for x in (old_val, val)):"},
     # ---- documented limits
     {"name": "X missing_locals bookkeeping dropped (not observed by the statement)", "file": OM, "expect": "miss",
      "old": "        self.missing_locals -= {obj.LocalID}\n", "new": ""},
